@@ -212,7 +212,7 @@ theorem C04_char_search_counterexample : ¬ C04_char_search_statement := by
     segmenter whose state restarts at a break — in particular the UAX #29 one — is stable -/
 theorem C04_uaxSeg_stable (cls : Char → String) : (uaxSeg cls).Stable := uaxSeg_stable cls
 
-theorem C04_uaxSeg_nlAlone (cls : Char → String) (h : cls '\n' = "LF") : (uaxSeg cls).NlAlone :=
+theorem C04_uaxSeg_nlAlone (cls : Char → String) (h : gcbBase (cls '\n') = "LF") : (uaxSeg cls).NlAlone :=
   uaxSeg_nlAlone cls h
 
 /-! ### a kill removes, and a copy returns, exactly the span the movement names
